@@ -1,6 +1,6 @@
 (* C04 -- Mnemonic sentences encode their entropy losslessly with a valid checksum.
    Model of the repaired mnemonic_from_entropy (size validated on the decoded bytes, D4). *)
-From BHW Require Import Lib.Base Lib.Digits Lib.ListAux Model.Helper Model.Bip39M Spec.Bip39 Proofs.Bip39.
+From BHW Require Import Lib.Base Lib.Digits Lib.ListAux Model.Helper Model.Bip39M Spec.Bip39 Proofs.Bip39 Proofs.Bip39Str.
 From BHWGen Require Import Consts Wordlist.
 
 (* the embedded word list is the official list in the official order, without duplicates *)
@@ -43,6 +43,11 @@ Theorem C04_bad_size_rejected : forall e,
   length e <> 16%nat -> length e <> 20%nat -> length e <> 24%nat -> length e <> 28%nat -> length e <> 32%nat ->
   mnemonic_from_entropy_bytes sha256 e = Err.
 Proof. exact (bad_size_rejected sha256 sha256_len sha256_wf). Qed.
+
+(* the string route the code actually takes -- bin()[2:], zfill, "." * 11 chunks, int(c, 2) -- on bit lists, equals the
+   arithmetic model above for every entropy (so the theorems above are about the code's own route) *)
+Theorem C04_string_route : forall e, wf_bytes e -> indexes_str sha256 e = mnemonic_indexes sha256 e.
+Proof. exact (indexes_str_eq sha256 sha256_wf sha256_len). Qed.
 End C04.
 
 Print Assumptions C04_wordlist_official.
@@ -51,3 +56,4 @@ Print Assumptions C04_words_injective.
 Print Assumptions C04_decode_encode.
 Print Assumptions C04_good_size_accepted.
 Print Assumptions C04_bad_size_rejected.
+Print Assumptions C04_string_route.
